@@ -60,7 +60,7 @@ const (
 const streamRule = "stream (E2, worker process, real hsmsss connection Selected in a synctest bubble, active and passive, T8 = 1 s): " +
 	"streams = every sequence of 1..3 frames over {S1F1W+3-byte body (17 B), S6F12 orphan secondary+2-byte body (16 B), header-only S5F1 (14 B), Linktest.req (14 B)} (<= 51 bytes); " +
 	"seg: one write, all-single-bytes, every single cut, every pair of cuts (quick: pairs for the 20 streams of <= 2 frames and 6 three-frame streams; thorough: all 84); " +
-	"gap: every single cut x pause {T8-1ms, T8+1ms, 10*T8, 100*T8} (quick: the same 26 streams; thorough: all), idle {T8+1ms, 100*T8} before the first byte, all-single-bytes with T8-1ms / T8+1ms between bytes, thorough: every pair of cuts x pauses {T8-1ms, T8+1ms}^2 on the streams of <= 2 frames; " +
+	"gap: every single cut x pause {T8-1ms, T8+1ms, 10*T8, 100*T8} (quick: the same 26 streams; thorough: all), idle {T8+1ms, 100*T8} before the first byte, all-single-bytes with T8-1ms / T8+1ms between bytes, every pair of cuts x pause pairs {(T8/8, T8-1ms), (1ms, T8-1ms), (T8-1ms, T8/8)} on the streams of <= 2 frames (the deadline counts from the last byte, not from an earlier arming); thorough: every pair of cuts x pauses {T8-1ms, T8+1ms}^2 on the streams of <= 2 frames; " +
 	"len: first four bytes in {0..9, cap+1, cap+2, 2^31, 2^32-1} alone / followed by a header / byte by byte / directly behind a valid frame: dropped at the same virtual instant with TotalAlloc delta < 1 MiB; legal edge lengths 10, 11 (+stall), cap (+stall): not dropped before T8, dropped after. " +
 	"oracle = reference framing model (deliveries byte-identical and in order, Linktest.rsp echoes, State(), peer EOF, re-dial / re-listen after a drop)"
 
